@@ -75,6 +75,8 @@ def _worker(args):
     gc.freeze()      # the inherited tables are immutable here: keep them out of every collection
     sg = repo.load(_G["repo"])
     rp = RA.Replayer(sg, dtype=dt, gdtype=gd)
+    for k, v in (_G.get("rattrs") or {}).items():
+        setattr(rp, k, v)
     table, consts, maximal = _G["table"], _G["consts"], _G["maximal"]
     out = []
     for idx in range(lo, hi):
@@ -92,7 +94,7 @@ def _worker(args):
 
 
 def replay_all(ctx, report, maximal, table, consts, kinds, dtypes=(np.float32,), label="", limit=None,
-               gdtypes=None, procs=16, live=False):
+               gdtypes=None, procs=16, live=False, rattrs=None):
     """Replay every maximal behaviour into the implementation (in parallel worker processes).
     kinds: dict divergence kind -> tag; only these kinds are reported by the calling check."""
     import multiprocessing as mp
@@ -100,7 +102,7 @@ def replay_all(ctx, report, maximal, table, consts, kinds, dtypes=(np.float32,),
         import random
         rnd = random.Random(ctx.seed)
         maximal = rnd.sample(maximal, limit)
-    _G.update(repo=ctx.repo, table=table, consts=consts, maximal=maximal, live=live)
+    _G.update(repo=ctx.repo, table=table, consts=consts, maximal=maximal, live=live, rattrs=rattrs)
     n = 0
     for di, dt in enumerate(dtypes):
         gd = None if gdtypes is None else gdtypes[di]
@@ -125,7 +127,7 @@ def replay_all(ctx, report, maximal, table, consts, kinds, dtypes=(np.float32,),
                         report.violation(key, msg,
                                          {"spec": "Autograd", "consts": _jsonable(consts), "dtype": str(np.dtype(dt)),
                                           "gdtype": str(np.dtype(gd)) if gd is not None else None,
-                                          "history": hist, "divergence": [kind, key, msg]})
+                                          "history": hist, "divergence": [kind, key, msg], "rattrs": rattrs})
     return n
 
 
@@ -160,6 +162,8 @@ def replay_file(ctx, path, kinds):
     res = tlc.run_tlc("Autograd", cfg, workers=1, wrapper=w, on_case=on_case, tag="replay")
     tlc.require_clean(res, "replay")
     r = RA.Replayer(sg, dtype=np.dtype(rp["dtype"]), gdtype=np.dtype(rp["gdtype"]) if rp.get("gdtype") else None)
+    for k, v in (rp.get("rattrs") or {}).items():
+        setattr(r, k, v)
 
     def expected(i):
         return table[RA.prefix_key(hist[:i])]["obs"]
